@@ -4,10 +4,12 @@
 pub mod driver;
 pub mod fmt;
 pub mod known;
+pub mod macros_child;
 pub mod props;
 pub mod queue;
 #[cfg(cadence_verif)]
 pub mod sched;
 pub mod sockets;
+pub mod stress;
 pub mod util;
 pub mod writer;
